@@ -627,6 +627,9 @@ package valid
 //@   ensures [C03 exist.scalar] !isValidTvKind && rv.kind(tv) != 22 && rv.kind(tv) != 25 && rv.kind(tv) != 23 && rv.kind(tv) != 17 && rv.kind(tv) != 21 ==> sb.nw(v.errBuf) == old(sb.nw(v.errBuf))
 //@   loop#0 exhaustive [C02 C04 C17 walk.all]
 //@   loop#1 exhaustive [C02 C04 C17 walk.all]
+//@   loop#0 entered_when [C02 C04 walk.enter] !rv.isZero(tv) && (rv.kind(tv) == 23 || rv.kind(tv) == 17)
+//@   loop#1 entered_when [C02 C04 walk.enter] !rv.isZero(tv) && rv.kind(tv) == 21
+//@   at call validate#0 reached_when [C02 C04 walk.enter] !rv.isZero(tv) && (rv.kind(tv) == 22 || rv.kind(tv) == 25) && rv.type(tv) != timeReflectType
 //@   requires vs.ok(v) && cache.inv() && rv.valid(tv) && !rv.ro(tv)
 //@   modifies sb.content(v.errBuf), sb.nw(v.errBuf), cache.stored, lst.mem, lst.stamp, lst.size, mu.held, mu.acq, cb.count, cb.key, cb.val, "H.container/list.Element.Value", v.vc.valid2FieldsMap, "MapDom.String.Slice", "MapVal.String.Slice", "MapLen.String.Slice", "Mem.Int"
 //@   ensures vs.ok(v) && cache.inv()
@@ -637,6 +640,13 @@ package valid
 //@   at call CommonValidFn#0 assert [C18 struct.carries] arg1 == validName && arg4 == rv.field(tv, fieldNum)
 //@   at call ValidNamesSplit#0 assert [C16 effective.rule] s == ite(cusRM != nil && len(cusRM) > 0 && fieldInfo.name != "" && has(cusRM, fieldInfo.name) && cusRM[fieldInfo.name] != "", cusRM[fieldInfo.name], cacheStructType.fieldInfos[fieldNum].validNames)
 //@   at call required#0 assert [C15 C03 required.args] arg3 == ParseValidNameKV.cusMsg(validName) && arg4 == rv.field(tv, fieldNum)
+//@   loop#0 entered_when [C02 C04 walk.enter] rv.valid(tv) && rv.kind(tv) == 25
+//@   at call ValidNamesSplit#0 reached_when [C02 C03 C04 walk.enter] fieldNum < totalFieldNum && cacheStructType.fieldInfos[fieldNum].export && s != ""
+//@   at call required#0 reached_when [C02 C03 walk.enter] validName != "" && err == nil && fn == nil && validKey == "required"
+//@   at call exist#0 reached_when [C02 C04 walk.enter] validName != "" && err == nil && fn == nil && validKey == "exist"
+//@   at call initValid2FieldsMap#0 reached_when [C02 C17 walk.enter] validName != "" && err == nil && fn == nil && (validKey == "either" || validKey == "botheq")
+//@   at call CommonValidFn#0 reached_when [C02 C03 walk.enter] validName != "" && err == nil && fn != nil && !rv.isZero(fieldValue)
+//@   at call GetJoinFieldErr#0 reached_when [C02 C16 walk.enter] validName != "" && err != nil
 //@   loop#0 invariant [C16 scope] cusRM == ite(structName$0 == "", ite(len(rmOf(v, ty)) > 0, rmOf(v, ty), rmOf(v, validOnlyOuterObj)), rmOf(v, ty))
 //@   loop#0 exhaustive [C02 C04 C17 walk.all]
 //@   loop#1 exhaustive [C02 C04 C17 walk.all]
@@ -688,6 +698,9 @@ package valid
 //@   modifies sb.content(v.errBuf), sb.nw(v.errBuf), v.ruleMap, v.vc
 
 //@ func (*VStruct).Valid
+//@   loop#0 entered_when [C02 C04 walk.enter] src != nil && rv.valid(reflectValue) && (rv.kind(reflectValue) == 23 || rv.kind(reflectValue) == 17)
+//@   loop#1 entered_when [C02 C04 walk.enter] src != nil && rv.valid(reflectValue) && rv.kind(reflectValue) == 21
+//@   at call validate#2 reached_when [C02 C04 walk.enter] src != nil && rv.valid(reflectValue) && rv.kind(reflectValue) == 25
 //@   loop#0 exhaustive [C02 C04 C17 walk.all]
 //@   loop#1 exhaustive [C02 C04 C17 walk.all]
 //@   requires vs.ok(v) && cache.inv()
@@ -730,6 +743,9 @@ package valid
 //@   ensures [C16 fn.unknown] !(v.vc.validFn != nil && has(v.vc.validFn, validName)) && !has(validName2FnMap, validName) ==> result0 == nil && result1 != nil
 
 //@ func (*VVar).validate
+//@   at call ValidNamesSplit#0 reached_when [C02 C03 walk.enter] validNames != ""
+//@   at call CommonValidFn#0 reached_when [C02 C03 walk.enter] validName != "" && err == nil && fn != nil && !rv.isZero(tv)
+//@   at call GetJoinFieldErr#1 reached_when [C02 C16 walk.enter] validName != "" && err != nil
 //@   at call GetJoinValidErrStr#* assert [C03 var.required] ((rv.kind(tv) == 17 || rv.kind(tv) == 23) && rv.len(tv) == 0) || rv.isZero(tv)
 //@   at call CommonValidFn#0 assert [C18 var.carries] arg1 == validName && arg4 == tv
 //@   loop#0 exhaustive [C02 C04 C17 walk.all]
@@ -773,6 +789,10 @@ package valid
 //@   modifies nothing
 
 //@ func (*VMap).validate
+//@   loop#0 entered_when [C02 C03 walk.enter] rv.kind(tv) == 21 && rt.kind(rt.key(rv.type(tv))) == 24
+//@   at call ValidNamesSplit#0 reached_when [C02 C03 walk.enter] validNames != ""
+//@   at call CommonValidFn#0 reached_when [C02 C03 walk.enter] validName != "" && err == nil && fn != nil && !rv.isZero(val)
+//@   at call initValid2FieldsMap#0 reached_when [C02 C17 walk.enter] validName != "" && err == nil && fn == nil && (validKey == "either" || validKey == "botheq")
 //@   at call GetJoinValidErrStr#* assert [C03 map.required] rv.isZero(val)
 //@   at call CommonValidFn#0 assert [C18 map.carries] arg1 == validName && arg4 == rv.mapVal(tv, mi.pos(mapIter))
 //@   loop#0 exhaustive [C02 C04 C17 walk.all]
@@ -815,6 +835,9 @@ package valid
 //@   ensures [C16 fn.unknown] !(v.vc.validFn != nil && has(v.vc.validFn, validName)) && !has(validName2FnMap, validName) ==> result0 == nil && result1 != nil
 
 //@ func (*VUrl).validate
+//@   at call ValidNamesSplit#0 reached_when [C02 C03 walk.enter] validNames != ""
+//@   at call CommonValidFn#0 reached_when [C02 C03 walk.enter] validName != "" && err == nil && fn != nil && val != ""
+//@   at call initValid2FieldsMap#0 reached_when [C02 C17 walk.enter] validName != "" && err == nil && fn == nil && (validKey == "either" || validKey == "botheq")
 //@   at call Get#0 assert [C03 C17 C18 url.item] key == ite(len(key2val) > 0, key2val[0], "") && val == ite(len(key2val) > 1, key2val[1], "")
 //@   at call GetJoinValidErrStr#* assert [C03 url.required] val == ""
 //@   at call CommonValidFn#0 assert [C18 url.carries] arg1 == validName && rv.kind(arg4) == 24 && rv.str(arg4) == val
